@@ -114,10 +114,24 @@ FirstZero(n, i) == IF i >= SLOTS THEN SLOTS ELSE IF Get(n, i) = 0 THEN i ELSE Fi
 Rest == <<cell, nextVal, sent, got, fate, ndeliv, frozen, bad>>
 
 ----------------------------------------------------------------------------
+\* Freeze-mode bookkeeping shared by every step of the code: in freeze mode only the frozen thread
+\* steps, and its own steps are counted (S_Start is bookkeeping, not a step of the code).
+IsStart(t) == Top(t).pc = "s_ld" /\ Top(t).val = 0
+FrozenDone ==
+    /\ frozen # 0
+    /\ \/ Len(stack[frozen]) < fmark[1]
+       \/ /\ Len(stack[frozen]) = fmark[1]
+          /\ (todo[frozen] < fmark[2] \/ Top(frozen).kind = "idle" \/ Top(frozen).pc = "panicked")
+Fr(t) ==
+    /\ frozen \in {0, t} /\ ~FrozenDone
+    /\ fsteps' = IF frozen = t /\ ~IsStart(t) THEN fsteps + 1 ELSE fsteps
+    /\ UNCHANGED fmark
+
 (* The first load of a dequeue / enqueue (Relaxed in the code). *)
 Q_Load(t, pcFrom, q, pcTo) ==
     LET f == Top(t)
         ord == IF pcFrom \in {"s_ld", "r_ld"} THEN OrdDeqLoad ELSE OrdEnqLoad IN
+    /\ Fr(t)
     /\ f.pc = pcFrom
     /\ \E ts \in M!ReadTs(t, q, ord) :
          /\ M!MRead(t, q, ord, ts)
@@ -142,6 +156,7 @@ CasFail(t, q, ordFail) ==
 \* The head of the loaded `empty` word decides: 0 = no free slot, the value is dropped.
 S_Full(t) ==
     LET f == Top(t) IN
+    /\ Fr(t)
     /\ f.pc = "s_deq" /\ f.cur % Radix = 0
     /\ fate' = [fate EXCEPT ![f.val] = "dropped"]
     /\ bad' = bad \cup (IF fate[f.val] # "flight" THEN {"double_drop"} ELSE {})
@@ -150,6 +165,7 @@ S_Full(t) ==
 
 S_Start(t) ==
     LET f == Top(t) IN
+    /\ Fr(t)
     /\ f.pc = "s_ld" /\ f.val = 0
     /\ SetTop(t, [f EXCEPT !.val = nextVal])
     /\ nextVal' = nextVal + 1
@@ -158,6 +174,7 @@ S_Start(t) ==
 
 S_DeqOk(t) ==
     LET f == Top(t) IN
+    /\ Fr(t)
     /\ f.pc = "s_deq" /\ f.cur % Radix # 0
     /\ M!Latest(EMPTYQ) = f.cur
     /\ M!MRmw(t, EMPTYQ, OrdDeqOk, f.cur \div Radix)
@@ -165,12 +182,14 @@ S_DeqOk(t) ==
     /\ UNCHANGED <<todo, cell, nextVal, sent, got, fate, ndeliv, nspur, frozen, bad>>
 
 S_DeqFail(t) ==
+    /\ Fr(t)
     /\ Top(t).pc = "s_deq" /\ Top(t).cur % Radix # 0
     /\ CasFail(t, EMPTYQ, OrdDeqFail)
     /\ UNCHANGED <<todo, cell, nextVal, sent, got, fate, ndeliv, frozen, bad>>
 
 S_Write(t) ==
     LET f == Top(t) IN
+    /\ Fr(t)
     /\ f.pc = "s_write"
     /\ M!MCellWrite(t, CellOf(f.idx))
     /\ cell' = [cell EXCEPT ![f.idx] = f.val]
@@ -182,6 +201,7 @@ S_Write(t) ==
 S_EnqOk(t) ==
     LET f == Top(t)
         p == FirstZero(f.cur, 0) IN
+    /\ Fr(t)
     /\ f.pc = "s_enq" /\ p < SLOTS
     /\ M!Latest(FULLQ) = f.cur
     /\ M!MRmw(t, FULLQ, OrdEnqOk, Set(f.cur, p, f.idx))
@@ -190,6 +210,7 @@ S_EnqOk(t) ==
     /\ UNCHANGED <<cell, nextVal, got, fate, ndeliv, nspur, frozen, bad>>
 
 S_EnqFail(t) ==
+    /\ Fr(t)
     /\ Top(t).pc = "s_enq" /\ FirstZero(Top(t).cur, 0) < SLOTS
     /\ CasFail(t, FULLQ, OrdEnqFail)
     /\ UNCHANGED <<todo, cell, nextVal, sent, got, fate, ndeliv, frozen, bad>>
@@ -197,6 +218,7 @@ S_EnqFail(t) ==
 \* enqueue found no zero position: expect("No empty slot available") panics.
 EnqPanic(t) ==
     LET f == Top(t) IN
+    /\ Fr(t)
     /\ f.pc \in {"s_enq", "r_enq"} /\ FirstZero(f.cur, 0) >= SLOTS
     /\ bad' = bad \cup {"panic_no_empty_slot"}
     /\ SetTop(t, [f EXCEPT !.pc = "panicked"])
@@ -208,6 +230,7 @@ EnqPanic(t) ==
 
 R_Empty(t) ==
     LET f == Top(t) IN
+    /\ Fr(t)
     /\ f.pc = "r_deq" /\ f.cur % Radix = 0
     /\ Finish(t)
     /\ UNCHANGED <<hist, tv, scv, cver, race, cell, nextVal, sent, got, fate, ndeliv, nspur,
@@ -215,6 +238,7 @@ R_Empty(t) ==
 
 R_DeqOk(t) ==
     LET f == Top(t) IN
+    /\ Fr(t)
     /\ f.pc = "r_deq" /\ f.cur % Radix # 0
     /\ M!Latest(FULLQ) = f.cur
     /\ M!MRmw(t, FULLQ, OrdDeqOk, f.cur \div Radix)
@@ -223,6 +247,7 @@ R_DeqOk(t) ==
     /\ UNCHANGED <<todo, cell, nextVal, sent, fate, ndeliv, nspur, frozen, bad>>
 
 R_DeqFail(t) ==
+    /\ Fr(t)
     /\ Top(t).pc = "r_deq" /\ Top(t).cur % Radix # 0
     /\ CasFail(t, FULLQ, OrdDeqFail)
     /\ UNCHANGED <<todo, cell, nextVal, sent, got, fate, ndeliv, frozen, bad>>
@@ -230,6 +255,7 @@ R_DeqFail(t) ==
 R_Take(t) ==
     LET f == Top(t)
         v == cell[f.idx] IN
+    /\ Fr(t)
     /\ f.pc = "r_take"
     /\ M!MCellWrite(t, CellOf(f.idx))
     /\ cell' = [cell EXCEPT ![f.idx] = 0]
@@ -244,6 +270,7 @@ R_Take(t) ==
 R_EnqOk(t) ==
     LET f == Top(t)
         p == FirstZero(f.cur, 0) IN
+    /\ Fr(t)
     /\ f.pc = "r_enq" /\ p < SLOTS
     /\ M!Latest(EMPTYQ) = f.cur
     /\ M!MRmw(t, EMPTYQ, OrdEnqOk, Set(f.cur, p, f.idx))
@@ -251,6 +278,7 @@ R_EnqOk(t) ==
     /\ UNCHANGED <<cell, nextVal, sent, got, fate, ndeliv, nspur, frozen, bad>>
 
 R_EnqFail(t) ==
+    /\ Fr(t)
     /\ Top(t).pc = "r_enq" /\ FirstZero(Top(t).cur, 0) < SLOTS
     /\ CasFail(t, EMPTYQ, OrdEnqFail)
     /\ UNCHANGED <<todo, cell, nextVal, sent, got, fate, ndeliv, frozen, bad>>
@@ -278,14 +306,7 @@ StepOf(t) ==
     \/ Q_Load(t, "r_ld2", EMPTYQ, "r_enq")
     \/ R_EnqOk(t) \/ R_EnqFail(t)
 
-\* Normal mode: anybody steps.  Freeze mode: once `frozen` is set only that thread steps and its
-\* own steps are counted (S_Start is bookkeeping, not a step of the code).
-IsStart(t) == Top(t).pc = "s_ld" /\ Top(t).val = 0
-Step(t) ==
-    /\ frozen \in {0, t}
-    /\ StepOf(t)
-    /\ fsteps' = IF frozen = t /\ ~IsStart(t) THEN fsteps + 1 ELSE fsteps
-    /\ UNCHANGED fmark
+Step(t) == StepOf(t)
 
 \* Freeze everybody but t, at any moment t has an operation in progress or about to start.
 FreezeAt(t) ==
@@ -299,15 +320,8 @@ FreezeAt(t) ==
 
 AllDone == \A t \in Threads : Top(t).kind = "idle" \/ Top(t).pc = "panicked"
 
-\* In freeze mode the run ends when the frozen frame has returned.
-FrozenDone ==
-    /\ frozen # 0
-    /\ \/ Len(stack[frozen]) < fmark[1]
-       \/ /\ Len(stack[frozen]) = fmark[1]
-          /\ (todo[frozen] < fmark[2] \/ Top(frozen).kind = "idle" \/ Top(frozen).pc = "panicked")
-
 Next ==
-    \/ \E t \in Threads : (~FrozenDone /\ Step(t)) \/ Deliver(t) \/ FreezeAt(t)
+    \/ \E t \in Threads : Step(t) \/ Deliver(t) \/ FreezeAt(t)
     \/ (AllDone \/ FrozenDone) /\ UNCHANGED vars
 
 Spec == Init /\ [][Next]_vars
